@@ -8,22 +8,20 @@ import (
 )
 
 func Harness_C20_ExportUntidy() {
-	shape := nd.IntRange("shape", 0, 3)
+	// shapes that syslwrapper.AppMapper.MapType produces for untidy models
+	shape := nd.IntRange("shape", 0, 2)
 	label := ""
 	t := &syslwrapper.Type{Type: "tuple", Properties: map[string]*syslwrapper.Type{}}
 	switch shape {
 	case 0:
-		label = "export:reference-without-application-part"
-		t.Properties["r"] = &syslwrapper.Type{Type: "ref", Reference: "JustAName"}
+		label = "export:reference-to-undefined-type"
+		t.Properties["r"] = &syslwrapper.Type{Type: "ref", Reference: "App.Ghost"}
 	case 1:
-		label = "export:list-without-item-type"
-		t.Properties["l"] = &syslwrapper.Type{Type: "list"}
+		label = "export:reference-with-empty-application-part"
+		t.Properties["r"] = &syslwrapper.Type{Type: "ref", Reference: ".Ghost"}
 	case 2:
-		label = "export:nil-property"
-		t.Properties["n"] = nil
-	case 3:
-		label = "export:empty-reference"
-		t.Properties["r"] = &syslwrapper.Type{Type: "ref", Reference: ""}
+		label = "export:sequence-of-nothing"
+		t.Properties["l"] = &syslwrapper.Type{Type: "list", Items: []*syslwrapper.Type{nil}}
 	}
 	app := &syslwrapper.App{Name: "App", Attributes: map[string]string{}, Types: map[string]*syslwrapper.Type{"T": t},
 		Endpoints: map[string]*syslwrapper.Endpoint{"e": {Path: "GET /x", Params: map[string]*syslwrapper.Parameter{},
